@@ -155,8 +155,12 @@ func TestVerifC11Broker(t *testing.T) {
 		{"broker_meta_unavailable", nil, func(s metadata.Store) metadata.Store { return c11UnavailableStore{s} }},
 	}
 	replay := c11ReplayCase("broker")
+	sreplay := c11ReplayStream("broker")
 	for i, cfg := range configs {
 		if replay != nil && replay.Target != cfg.name {
+			continue
+		}
+		if sreplay != nil && sreplay.Target != cfg.name {
 			continue
 		}
 		for k, v := range cfg.env {
@@ -173,16 +177,27 @@ func TestVerifC11Broker(t *testing.T) {
 				}
 			},
 		}
-		c11RunMatrix(r, c11Matrix{target: cfg.name, addr: addr, salt: i * 1000000, requireReply: true, scale: []float64{1, 0.4, 0.4}[i], hooks: hooks, replay: replay})
-		if replay == nil {
+		if sreplay == nil {
+			c11RunMatrix(r, c11Matrix{target: cfg.name, addr: addr, salt: i * 1000000, requireReply: true, scale: []float64{1, 0.4, 0.4}[i], hooks: hooks, replay: replay})
+		}
+		if replay == nil && sreplay == nil {
 			c11RunSweep(r, c11Matrix{target: cfg.name, addr: addr, salt: i * 1000000, requireReply: true, hooks: hooks}, []int{r.N(2, 100), r.N(0, 2), r.N(0, 2)}[i], i == 0)
+		}
+		if replay == nil {
+			c11RunStreams(r, c11Matrix{target: cfg.name, addr: addr, salt: i * 1000000, requireReply: true, hooks: hooks}, []int{r.N(150, 3000), r.N(75, 1000), r.N(75, 1000)}[i], sreplay)
 		}
 		stop()
 		for k := range cfg.env {
 			t.Setenv(k, "")
 		}
 	}
-	if replay == nil {
+	if replay == nil && sreplay == nil {
+		r.Floor("streams_completed", 200)
+		r.Floor("stream_replies_after_acks0", 400)
+		r.Floor("stream_reply_pairs_after_acks0", 100)
+		r.Floor("stream_acks0_partition_kinds", 20)
+		r.Floor("stream_acks0_twin_partitions_rejected", 40)
+		r.Floor("stream_acks0_twin_partitions_accepted", 10)
 		r.Floor("advertised_pairs", 150)
 		r.Floor("replies_decoded", 1000)
 		r.Floor("replies_flexible_header", 100)
